@@ -91,7 +91,16 @@ def make_texts(rng, tier):
         else:
             k = rng.randint(0, 60)
             texts.append(("bytes", bytes(rng.randrange(256) for _ in range(k)).decode("latin-1")))
-    return texts
+    # layout: the same texts with every blank replaced by a line break — each token then starts a line, so every diagnostic
+    # is positioned at column 0 of some line (positions must not decide whether a text is accepted)
+    out = []
+    for k, (kind, t) in enumerate(texts):
+        out.append((kind, t))
+        if kind in ("mutated", "lexer-noise", "prefix", "suffix", "truncated", "unread-tail", "fixed") and k % 2 == 0 and " " in t:
+            out.append((kind, t.replace(" ", "\n")))
+    out += [("fixed", "//only a comment\n"), ("fixed", "#rule \"a\" begin end"), ("fixed", "rule \"a\" begin end\n#"), ("fixed", "rule \"a\" begin\nx=\nend"),
+            ("fixed", "rule \"a\" begin end\n@rule \"c\" begin end"), ("fixed", "\n\n$")]
+    return out
 
 
 def regen_compile():
